@@ -82,6 +82,19 @@ Theorem C02_step_rename_dir_inside : forall C w k r p q w' ep, RSync C w k r -> 
 Proof. exact step_rename_dir_inside. Qed.
 Print Assumptions C02_step_rename_dir_inside.
 
+(* Rename of a directory of the tree over an EMPTY directory of the tree: the re-key as above; the replaced directory's
+   watch is dropped by the kernel and its IN_IGNORED takes its wd out of _path_for_wd while _wd_for_path[q] already
+   belongs to the moved directory (the repaired `.get(path) == wd` test of F1 is what makes this work) *)
+Theorem C02_step_rename_dir_over : forall C w k r p q w' ep v, RSync C w k r -> npath p -> npath q ->
+  c_recursive C = true -> N.land IN_MOVED_FROM (c_mask C) <> 0%N -> N.land IN_MOVED_TO (c_mask C) <> 0%N ->
+  apply_op w (Rename p q) = Some w' ->
+  flookup p (w_fs w) = Some ep -> f_dir ep = true -> scope C p -> p <> c_root C -> scope C q -> q <> c_root C ->
+  flookup q (w_fs w) = Some v -> f_dir v = true ->
+  let k1 := kernel_op k (w_fs w) (Rename p q) in
+  exists r' k' evs, read_batch C (w_fs w') (r, drainq k1, []) (k_queue k1) = Done (r', k', evs) /\ RSync C w' k' r'.
+Proof. exact step_rename_dir_over. Qed.
+Print Assumptions C02_step_rename_dir_over.
+
 (* Rename of a directory into the tree from outside (to a fresh name, repaired code): add_dirs over walk_dirs covers
    the arrived directory and every directory below it *)
 Theorem C02_step_rename_dir_in : forall C, c_faults C = [] -> forall w k r p q w' ep, RSync C w k r -> npath p -> npath q ->
@@ -149,8 +162,9 @@ Definition C02_cover_sequential_full : Prop :=
    Touch / Write / Chmod / Unlink / Mkdir / Rmdir (not the root) / Rename of a file (any direction, replacing or not) /
    Rename of a directory inside the tree to a fresh name (recursive watch) / into the tree from outside to a fresh name
    (recursive watch, repaired code) / under a non-recursive watch / entirely outside the tree.
+   / over an empty directory of the tree.
    NOT covered (kept in the full statement only): a directory moved out of the tree (Cover survives, WInv does not -
-   finding F10), a directory of the tree renamed over an empty directory of the tree, operations on the root itself. *)
+   finding F10), a directory moved in from outside over an empty directory of the tree, operations on the root itself. *)
 Theorem C02_cover_sequential_partial : forall C, c_faults C = [] -> forall ops, mask_ok C -> forall w k r,
   RSync C w k r -> ops_covered C w ops ->
   exists w' k' r', rrun C w k r ops = Some (w', k', r') /\ RSync C w' k' r'.
@@ -266,7 +280,8 @@ Qed.
 (* the directory moves: entirely outside the tree, then into the tree *)
 Example C02_ops_covered_dir_moves_nonvacuous :
   ops_covered (cfgx true true) w0
-    [Rename (sub (sub pO 100) 101) (sub pO 101); Rename (sub pO 100) (sub pR 100)].
+    [Rename (sub (sub pO 100) 101) (sub pO 101); Rename (sub pO 100) (sub pR 100);
+     Mkdir (sub pR 97); Rename (sub pR 100) (sub pR 97)].                     (* over the empty directory a *)
 Proof.
   assert (GR : gpath pR) by (split; [discriminate | reflexivity]).
   assert (GO : gpath pO) by (split; [discriminate | reflexivity]).
@@ -282,5 +297,9 @@ Proof.
   { eapply co_rename_dir_in; try (now apply No); try (now apply Na); try reflexivity; try (vm_compute; reflexivity);
       try (right; vm_compute; reflexivity).
     intros [H|H]; vm_compute in H; discriminate. }
+  eapply ops_covered_cons; [vm_compute; reflexivity | apply co_mkdir; now apply Na |].
+  eapply ops_covered_cons; [vm_compute; reflexivity | |].
+  { eapply co_rename_dir_over; try (now apply Na); try reflexivity; try (vm_compute; reflexivity);
+      try (right; vm_compute; reflexivity); try (vm_compute; discriminate). }
   exact I.
 Qed.
